@@ -95,7 +95,11 @@ class FakeService:
                         if r == "close":
                             c.close()
                             return
-                        c.sendall(json.dumps(r).encode() + b"\0")
+                        try:
+                            c.sendall(json.dumps(r).encode() + b"\0")
+                        except OSError:
+                            # the peer no longer reads; keep logging what it had sent
+                            pass
         except OSError:
             pass
         finally:
@@ -134,7 +138,7 @@ def resolver_handler(table, info=None):
             if iface in table:
                 return [{"parameters": {"address": table[iface]}}]
             return [{"error": "org.varlink.resolver.InterfaceNotFound", "parameters": {"interface": iface}}]
-        if m == "org.varlink.service.GetInfo":
+        if m in ("org.varlink.service.GetInfo", "org.varlink.resolver.GetInfo"):
             return [{"parameters": info or {"vendor": "resolver-vendor", "product": "resolver", "version": "1", "url": "http://r", "interfaces": ["org.varlink.service", "org.varlink.resolver"] + sorted(table)}}]
         return [{"error": "org.varlink.service.MethodNotFound", "parameters": {"method": m}}]
 
